@@ -9,7 +9,24 @@ ASSUME = [
 ]
 RULE = 'every output message of every transition of the mc exploration: <=510 bytes, no LF/CR/NUL, head = [":" prefix SP] command (letters or 3 digits)'
 
+def prebuild():
+    import apidrive
+    apidrive.build()
+
 def run(tier):
-    mcdrive.run_mc('C15', tier, ['C15'], ASSUME, RULE)
+    import time, apidrive
+    t0 = time.time()
+    # API tier first: the real POST/DELETE/GET handlers on an in-process node
+    binary = apidrive.build()
+    ra = vlib.run_workers(binary, 'TestVerifC15Api', vlib.NCPU, env={'GOMAXPROCS': '2'})
+    mism = sum([r.get('mirror_mismatches') or [] for r in ra], [])
+    viols = sum([r.get('violations') or [] for r in ra], [])
+    if mism and not viols:
+        print('HARNESS-OUT-OF-DATE: the sanitiser mirror of the state-machine tier disagrees with the real handlers although every delivered line is well formed: %s' % mism[:3])
+        raise SystemExit(3)
+    extra = {'api_tier': {'posts': sum(r['posts'] for r in ra), 'deletes': sum(r['deletes'] for r in ra), 'delivered_lines_checked': sum(r['delivered_lines_checked'] for r in ra),
+                          'posts_changed_by_sanitising': sum(r['posts_changed_by_sanitising'] for r in ra), 'mirror_mismatches': len(mism),
+                          'samples': sum([r.get('samples') or [] for r in ra], [])[:3]}}
+    mcdrive.run_mc('C15', tier, ['C15'], ASSUME, RULE, pre_violations=viols, extra_cov=extra, t0=t0)
 
 MANIFEST = {'engine': 'mc', 'level': 'model_checking', 'technique': 'explicit-state BFS over the real IRCServer; every output line of every transition checked against the RFC 1459 line shape; text alphabet with CR/NUL/LF/long/multibyte in every echoed position', 'text': 'Every message produced by every transition of the bounded exploration must be <=510 bytes, free of LF/CR/NUL and start with an optional well-formed prefix and a command. The POST/DELETE sanitising is mirrored in the harness and tied to the real handlers by the API tier.', 'note': 'Same bounds as C06. Prefix-less ERROR and server-to-services burst lines are accepted (protocol); sender prefix identity is C12.'}
